@@ -1150,7 +1150,8 @@ func (db *DB) Repair(of Object) (err error) {
 		}
 	}
 
-	return nil
+	// the repaired index must be committed as any other modification
+	return db.commit(of)
 }
 
 // Close closes gently the DB by flushing any pending async writes
